@@ -12,103 +12,91 @@ import (
 	"mastcheck/ir"
 )
 
-// afRoles binds the roles the clause talks about to SSA values of one
-// function: the Store method itself, or a helper it hands the work to.
-type afRoles struct {
+// afCtx evaluates the clause for one Store method. Helper functions of the
+// package (static callees, methods on the receiver included) are followed to
+// depth maxHelperDepth: values are resolved through parameters/arguments and
+// single-return helpers (frames, see backends_util.go), and the step
+// automaton is run through helper calls by inlining their feasible outcomes.
+type afCtx struct {
 	c         *Ctx
-	fn        *ssa.Function
-	recv      *recvInfo
-	baseField string    // receiver field holding the directory
-	name      ssa.Value // node name
-	bytes     ssa.Value // node contents
-	finalP    ssa.Value // helper: parameter carrying the final path
-	dirP      ssa.Value // helper: parameter carrying the directory
+	root      *frame
+	baseField string
+
+	statErrs  map[ssa.Value]bool // error results of Stat(final path) in the root frame
+	writeOf   map[afCall]fval    // write call -> temp file it writes the bytes to
+	steps     []afCall           // registry of step calls (index = id in the automaton state)
+	stepID    map[afCall]int
+	relevant  map[*frame]bool // frames that contain a step or touch a temp file
+	escapes   bool
+	undecided bool
+	violated  bool
+	memo      map[string][]afOutcome
+	overflow  bool
 }
 
-func (a *afRoles) ownFunc(fn *ssa.Function) bool {
-	return fn != nil && fn.Blocks != nil && isOwn(a.c.P, fn)
+type afCall struct {
+	call *ssa.Call
+	fr   *frame
 }
 
-func (a *afRoles) isName(v ssa.Value) bool {
-	return a.name != nil && ir.Strip(ir.ResolveCell(v)) == a.name
+type afOutcome struct {
+	aux string
+	err tri
 }
 
-func (a *afRoles) isBytes(v ssa.Value) bool {
-	return a.bytes != nil && ir.Strip(ir.ResolveCell(v)) == a.bytes
-}
+func (a *afCtx) isName(v ssa.Value, fr *frame) bool  { return isRootParam(v, fr, 2) }
+func (a *afCtx) isBytes(v ssa.Value, fr *frame) bool { return isRootParam(v, fr, 3) }
 
-func (a *afRoles) isBase(v ssa.Value) bool {
-	v = ir.Strip(ir.ResolveCell(v))
-	if a.dirP != nil && v == a.dirP {
+func (a *afCtx) isBase(v ssa.Value, fr *frame) bool {
+	x := expand(v, fr)
+	if f, ok := rootRecvField(x.v, x.fr); ok && f == a.baseField {
 		return true
 	}
-	if a.recv != nil && a.baseField != "" {
-		if f, ok := a.recv.fieldOf(v); ok && f == a.baseField {
-			return true
-		}
-	}
-	if call, ok := v.(*ssa.Call); ok && staticID(call) == "path/filepath.Clean" {
-		return a.isBase(call.Call.Args[0])
+	if call, ok := x.v.(*ssa.Call); ok && staticID(call) == "path/filepath.Clean" {
+		return a.isBase(call.Call.Args[0], x.fr)
 	}
 	return false
 }
 
 // isSameDir: v is provably the directory the final path lives in.
-func (a *afRoles) isSameDir(v ssa.Value) bool {
-	if a.isBase(v) {
+func (a *afCtx) isSameDir(v ssa.Value, fr *frame) bool {
+	if a.isBase(v, fr) {
 		return true
 	}
-	v = ir.Strip(ir.ResolveCell(v))
-	if call, ok := v.(*ssa.Call); ok && staticID(call) == "path/filepath.Dir" {
-		return a.isFinal(call.Call.Args[0])
+	x := expand(v, fr)
+	if call, ok := x.v.(*ssa.Call); ok && staticID(call) == "path/filepath.Dir" {
+		return a.isFinal(call.Call.Args[0], x.fr)
 	}
 	return false
 }
 
-func (a *afRoles) isFinal(v ssa.Value) bool { return a.isFinalD(v, 0) }
+func (a *afCtx) isFinal(v ssa.Value, fr *frame) bool { return a.isFinalD(v, fr, 0) }
 
-func (a *afRoles) isFinalD(v ssa.Value, d int) bool {
-	if v == nil || d > 5 {
+func (a *afCtx) isFinalD(v ssa.Value, fr *frame, d int) bool {
+	if v == nil || d > 6 {
 		return false
 	}
-	v = ir.Strip(ir.ResolveCell(v))
-	if a.finalP != nil && v == a.finalP {
-		return true
-	}
-	switch x := v.(type) {
+	x := expand(v, fr)
+	switch y := x.v.(type) {
 	case *ssa.Call:
-		switch staticID(x) {
+		switch staticID(y) {
 		case "path/filepath.Join":
-			el := variadicElems(x.Call.Args[0])
-			return len(el) == 2 && a.isBase(el[0]) && a.isName(el[1])
+			el := variadicElems(y.Call.Args[0])
+			return len(el) == 2 && a.isBase(el[0], x.fr) && a.isName(el[1], x.fr)
 		case "path/filepath.Clean", "path/filepath.FromSlash":
-			return a.isFinalD(x.Call.Args[0], d+1)
-		}
-		// a path helper of the repository: every return is the final path under the mapped roles
-		if h := x.Call.StaticCallee(); a.ownFunc(h) && h != a.fn {
-			sub := a.mapRolesD(x, h, d+1)
-			rets := ir.Returns(h)
-			if len(rets) == 0 {
-				return false
-			}
-			for _, r := range rets {
-				if len(r.Results) != 1 || !sub.isFinalD(r.Results[0], d+1) {
-					return false
-				}
-			}
-			return true
+			return a.isFinalD(y.Call.Args[0], x.fr, d+1)
 		}
 	case *ssa.Phi:
-		for _, e := range x.Edges {
-			if !a.isFinalD(e, d+1) {
+		for _, e := range y.Edges {
+			if !a.isFinalD(e, x.fr, d+1) {
 				return false
 			}
 		}
-		return len(x.Edges) > 0
+		return len(y.Edges) > 0
 	case *ssa.BinOp:
-		l := concatLeaves(x)
-		if len(l) == 3 && a.isBase(l[0]) && a.isName(l[2]) {
-			if s, ok := constString(l[1]); ok && (s == "/" || s == string(rune(0x5c))) {
+		l := stringLeaves(y, x.fr)
+		if len(l) == 3 && a.isBase(l[0].v, l[0].fr) && a.isName(l[2].v, l[2].fr) {
+			if s, ok := constString(l[1].v); ok && (s == "/" || s == string(rune(0x5c))) {
 				return true
 			}
 		}
@@ -116,37 +104,26 @@ func (a *afRoles) isFinalD(v ssa.Value, d int) bool {
 	return false
 }
 
-// mapRoles transfers the roles to callee h along the arguments of call.
-func (a *afRoles) mapRoles(call ssa.CallInstruction, h *ssa.Function) *afRoles {
-	return a.mapRolesD(call, h, 0)
-}
-
-func (a *afRoles) mapRolesD(call ssa.CallInstruction, h *ssa.Function, d int) *afRoles {
-	sub := &afRoles{c: a.c, fn: h}
-	args := call.Common().Args
-	for i, arg := range args {
-		if i >= len(h.Params) {
-			break
-		}
-		p := h.Params[i]
-		switch {
-		case i == 0 && h.Signature.Recv() != nil && a.recv != nil && (a.recv.isRecvValue(arg) || a.recv.isBase(arg)):
-			sub.recv = newRecvInfo(h)
-			sub.baseField = a.baseField
-			if sub.recv != nil && sub.recv.fieldWritten(a.baseField) {
-				sub.recv = nil
+// tempOf: v denotes the *os.File returned by a CreateTemp call.
+func (a *afCtx) tempOf(v ssa.Value, fr *frame) (fval, bool) {
+	x := expand(v, fr)
+	if ex, ok := x.v.(*ssa.Extract); ok && ex.Index == 0 {
+		if call, ok := ex.Tuple.(*ssa.Call); ok {
+			if id := staticID(call); id == "os.CreateTemp" || id == "io/ioutil.TempFile" {
+				return x, true
 			}
-		case a.isName(arg):
-			sub.name = p
-		case a.isBytes(arg):
-			sub.bytes = p
-		case a.isFinalD(arg, d+1):
-			sub.finalP = p
-		case a.isBase(arg):
-			sub.dirP = p
 		}
 	}
-	return sub
+	return fval{}, false
+}
+
+// tempNameOf: v denotes f.Name() of a temp file f.
+func (a *afCtx) tempNameOf(v ssa.Value, fr *frame) (fval, bool) {
+	x := expand(v, fr)
+	if call, ok := x.v.(*ssa.Call); ok && staticID(call) == "(*os.File).Name" && len(call.Call.Args) == 1 {
+		return a.tempOf(call.Call.Args[0], x.fr)
+	}
+	return fval{}, false
 }
 
 func inNodeAlphabet(r rune) bool {
@@ -155,11 +132,11 @@ func inNodeAlphabet(r rune) bool {
 
 // patternVerdict: "ok", "bad" (provably only alphabet characters besides the
 // random part) or "unknown".
-func (a *afRoles) patternVerdict(v ssa.Value) (string, string) {
+func (a *afCtx) patternVerdict(v ssa.Value, fr *frame) (string, string) {
 	unknown := false
 	var parts []string
-	for _, l := range concatLeaves(v) {
-		if s, ok := constString(l); ok {
+	for _, l := range stringLeaves(v, fr) {
+		if s, ok := constString(l.v); ok {
 			parts = append(parts, fmt.Sprintf("%q", s))
 			for _, r := range s {
 				if r != '*' && !inNodeAlphabet(r) {
@@ -168,7 +145,7 @@ func (a *afRoles) patternVerdict(v ssa.Value) (string, string) {
 			}
 			continue
 		}
-		if a.isName(l) {
+		if a.isName(l.v, l.fr) {
 			parts = append(parts, "name")
 			continue
 		}
@@ -183,10 +160,10 @@ func (a *afRoles) patternVerdict(v ssa.Value) (string, string) {
 
 var afSteps = []string{"CreateTemp in the final directory", "Write of the bytes parameter to the temp file", "Sync of the temp file", "Close of the temp file", "Rename(temp, final path)"}
 
-type afResult struct {
-	violated  bool
-	undecided bool
-	successes int // success returns that complete the sequence
+// createsByName: os calls that create or truncate the file named by Args[i].
+var createsByName = map[string]int{
+	"os.WriteFile": 0, "os.Create": 0, "os.OpenFile": 0, "os.Truncate": 0, "io/ioutil.WriteFile": 0,
+	"os.Link": 1, "os.Symlink": 1, "os.Mkdir": 0, "os.MkdirAll": 0,
 }
 
 func runATOMICFILE(c *Ctx) {
@@ -197,20 +174,20 @@ func runATOMICFILE(c *Ctx) {
 			c.Undecided(fn, P.Pos(fn.Pos()), "signature", "unexpected Load/Store shape")
 			continue
 		}
-		recv := newRecvInfo(fn)
-		if recv == nil || recv.st == nil {
+		root := rootFrame(P, fn)
+		if root.recv == nil || root.recv.st == nil {
 			c.Undecided(fn, P.Pos(fn.Pos()), "receiver", "receiver is not a struct")
 			continue
 		}
-		// the base-path field: the unique string field F such that Store forms Join(recv.F, name)
+		// the base-path field: the unique string field F such that Store (or a helper) forms Join(recv.F, name)
 		var cands []string
-		for i := 0; i < recv.st.NumFields(); i++ {
-			f := recv.st.Field(i)
+		for i := 0; i < root.recv.st.NumFields(); i++ {
+			f := root.recv.st.Field(i)
 			if bt, ok := f.Type().Underlying().(*types.Basic); !ok || bt.Info()&types.IsString == 0 {
 				continue
 			}
-			a := &afRoles{c: c, fn: fn, recv: recv, baseField: f.Name(), name: fn.Params[2], bytes: fn.Params[3]}
-			if len(a.finalValues()) > 0 {
+			a := &afCtx{c: c, root: root, baseField: f.Name()}
+			if a.formsFinal() {
 				cands = append(cands, f.Name())
 			}
 		}
@@ -218,420 +195,470 @@ func runATOMICFILE(c *Ctx) {
 			c.Undecided(fn, P.Pos(fn.Pos()), "final path", fmt.Sprintf("Store forms filepath.Join(receiver field, name) for %d receiver fields (expected exactly one): cannot identify the final path", len(cands)))
 			continue
 		}
-		if recv.fieldWritten(cands[0]) {
+		if root.recv.fieldWritten(cands[0]) {
 			c.Undecided(fn, P.Pos(fn.Pos()), "base path modified", "Store assigns the receiver's base path field")
 			continue
 		}
-		a := &afRoles{c: c, fn: fn, recv: recv, baseField: cands[0], name: fn.Params[2], bytes: fn.Params[3]}
-		a.check(map[*ssa.Function]bool{})
+		a := &afCtx{c: c, root: root, baseField: cands[0]}
+		a.check()
 		atomicLoad(c, b, cands[0])
 	}
 }
 
-func (a *afRoles) finalValues() []ssa.Value {
-	var out []ssa.Value
-	for _, b := range a.fn.Blocks {
-		for _, ins := range b.Instrs {
-			if v, ok := ins.(ssa.Value); ok && a.isFinal(v) {
-				out = append(out, v)
+func (a *afCtx) formsFinal() bool {
+	found := false
+	var scan func(fr *frame)
+	scan = func(fr *frame) {
+		for _, b := range fr.fn.Blocks {
+			for _, ins := range b.Instrs {
+				if v, ok := ins.(ssa.Value); ok && !found && a.isFinal(v, fr) {
+					found = true
+				}
+				if call, ok := ins.(*ssa.Call); ok {
+					if k := fr.child(call); k != nil {
+						scan(k)
+					}
+				}
 			}
 		}
 	}
-	return out
+	scan(a.root)
+	return found
 }
 
-// createsByName: os calls that create or truncate the file named by Args[i].
-var createsByName = map[string]int{
-	"os.WriteFile": 0, "os.Create": 0, "os.OpenFile": 0, "os.Truncate": 0, "io/ioutil.WriteFile": 0,
-	"os.Link": 1, "os.Symlink": 1, "os.Mkdir": 0, "os.MkdirAll": 0,
-}
-
-// check decides clauses (a) and (b) for a.fn and reports; it returns a
-// summary used when a.fn is a helper of Store.
-func (a *afRoles) check(active map[*ssa.Function]bool) afResult {
-	c, P, fn := a.c, a.c.P, a.fn
-	var res afResult
-	if active[fn] {
-		c.Undecided(fn, P.Pos(fn.Pos()), "recursion", "recursive helper")
-		res.undecided = true
-		return res
+func (a *afCtx) okOnce(seen map[string]bool, pos, what, why string, trivial bool) {
+	if !seen[pos+what] {
+		seen[pos+what] = true
+		a.c.OK(pos, what, why, trivial)
 	}
-	active[fn] = true
-	defer delete(active, fn)
-	fname := ir.FuncName(fn)
+}
 
-	// ---- static inventory -------------------------------------------------
-	temps := map[ssa.Value]*ssa.Call{}     // file value -> CreateTemp call
-	tempNames := map[ssa.Value]ssa.Value{} // f.Name() result -> file value
-	helperOK := map[*ssa.Call]bool{}       // calls of helpers that perform the whole sequence
-	stepCalls := []*ssa.Call{}             // calls whose error must not be dropped
-	statErrs := map[ssa.Value]bool{}       // error results of Stat(final)
-	escapes := false                       // temp file handed to code the rule does not model
+func (a *afCtx) markRelevant(fr *frame) {
+	for f := fr; f != nil; f = f.up {
+		a.relevant[f] = true
+	}
+}
+
+func (a *afCtx) addStep(k afCall) {
+	if _, ok := a.stepID[k]; !ok {
+		a.stepID[k] = len(a.steps)
+		a.steps = append(a.steps, k)
+	}
+	a.markRelevant(k.fr)
+}
+
+// check decides clauses (a) and (b) for the Store method and the helpers it
+// calls.
+func (a *afCtx) check() {
+	c, P := a.c, a.c.P
+	a.statErrs = map[ssa.Value]bool{}
+	a.writeOf = map[afCall]fval{}
+	a.stepID = map[afCall]int{}
+	a.relevant = map[*frame]bool{}
+	a.memo = map[string][]afOutcome{}
+	seenOK := map[string]bool{}
 	inPlace := false
-	var calls []*ssa.Call
-	for _, b := range fn.Blocks {
-		for _, ins := range b.Instrs {
-			if call, ok := ins.(*ssa.Call); ok {
-				calls = append(calls, call)
-			}
-		}
-	}
-	for _, call := range calls {
+
+	// ---- static inventory over the frame tree -----------------------------
+	frameCalls(a.root, func(call *ssa.Call, fr *frame) {
+		fn := fr.fn
+		fname := ir.FuncName(fn)
 		id := staticID(call)
 		args := call.Call.Args
-		if i, ok := createsByName[id]; ok && i < len(args) && a.isFinal(args[i]) {
+		key := afCall{call, fr}
+		if i, ok := createsByName[id]; ok && i < len(args) && a.isFinal(args[i], fr) {
 			inPlace = true
-			res.violated = true
+			a.violated = true
 			c.Violation(fn, P.InstrPos(call), "final path written in place",
 				fmt.Sprintf("%s passes the final path filepath.Join(base, name) to %s: a crash or I/O error in the middle leaves a partial node under its final name, which Load then serves and the exists-shortcut never repairs", fname, callName(call)))
-			continue
+			return
 		}
 		switch id {
 		case "os.CreateTemp", "io/ioutil.TempFile":
-			if f := extractOf(call, 0); f != nil {
-				temps[f] = call
-			}
-			stepCalls = append(stepCalls, call)
-			if a.isSameDir(args[0]) {
-				c.OK(P.InstrPos(call), "temp directory of "+callName(call)+" in "+fname, "the directory of the final path (same filesystem, rename is atomic)", false)
+			a.addStep(key)
+			if a.isSameDir(args[0], fr) {
+				a.okOnce(seenOK, P.InstrPos(call), "temp directory of "+callName(call)+" in "+fname, "the directory of the final path (same filesystem, rename is atomic)", false)
+			} else if unfollowedHelper(expand(args[0], fr)) {
+				a.undecided = true
+				c.Undecided(fn, P.InstrPos(call), "temp directory", "the directory is computed by a helper the rule does not follow: "+descFval(expand(args[0], fr)))
 			} else {
-				res.violated = true
+				a.violated = true
 				c.Violation(fn, P.InstrPos(call), "temp file not created in the final directory",
-					"the temporary file is created in "+descValue(args[0])+", which is not provably the directory of the final path: rename across directories/filesystems is not atomic (or fails)")
+					"the temporary file is created in "+descFval(expand(args[0], fr))+", which is not provably the directory of the final path: rename across directories/filesystems is not atomic (or fails)")
 			}
-			switch v, shape := a.patternVerdict(args[1]); v {
+			switch v, shape := a.patternVerdict(args[1], fr); v {
 			case "ok":
-				c.OK(P.InstrPos(call), "temp pattern of "+callName(call)+" in "+fname, "contains a character outside [A-Za-z0-9_-]: a temp file can never be named like a node", false)
+				a.okOnce(seenOK, P.InstrPos(call), "temp pattern of "+callName(call)+" in "+fname, "contains a character outside [A-Za-z0-9_-]: a temp file can never be named like a node", false)
 			case "bad":
-				res.violated = true
+				a.violated = true
 				c.Violation(fn, P.InstrPos(call), "temp pattern inside the node-name alphabet",
 					"the temp-file pattern "+shape+" consists only of characters a node name may contain: a leftover partial temp file can be loaded as a node")
 			default:
-				res.undecided = true
+				a.undecided = true
 				c.Undecided(fn, P.InstrPos(call), "temp pattern", "cannot decide whether pattern "+shape+" contains a character outside the node-name alphabet")
 			}
+			return
 		case "os.Stat", "os.Lstat":
-			if a.isFinal(args[0]) {
+			if fr == a.root && a.isFinal(args[0], fr) {
 				if e, _ := errorValue(call); e != nil {
-					statErrs[e] = true
+					a.statErrs[e] = true
 				}
 			}
+			return
+		case "os.Rename":
+			a.addStep(key)
+			if unfollowedHelper(expand(args[0], fr)) || unfollowedHelper(expand(args[1], fr)) {
+				a.escapes = true // a path computed by a helper the rule does not follow: undecided, not violated
+			}
+			return
 		}
-	}
-	isTemp := func(v ssa.Value) ssa.Value {
-		v = ir.Strip(ir.ResolveCell(v))
-		if _, ok := temps[v]; ok {
-			return v
-		}
-		return nil
-	}
-	for _, call := range calls {
-		id := staticID(call)
-		args := call.Call.Args
-		if id == "(*os.File).Name" && len(args) == 1 && isTemp(args[0]) != nil {
-			tempNames[call] = isTemp(args[0])
-		}
-	}
-	isTempName := func(v ssa.Value) ssa.Value {
-		v = ir.Strip(ir.ResolveCell(v))
-		return tempNames[v]
-	}
-	// classify every use of a temp file
-	writeOf := map[*ssa.Call]ssa.Value{} // call -> temp file it writes the bytes to
-	for _, call := range calls {
-		id := staticID(call)
-		args := call.Call.Args
-		var f ssa.Value
+		// uses of a temp file
+		var f fval
+		has := false
 		for _, arg := range args {
-			if t := isTemp(arg); t != nil {
-				f = t
+			if t, ok := a.tempOf(arg, fr); ok {
+				f, has = t, true
 			}
 		}
-		if f == nil {
-			continue
+		if !has {
+			return
 		}
+		a.markRelevant(fr)
 		switch id {
 		case "(*os.File).Write":
-			stepCalls = append(stepCalls, call)
-			if a.isBytes(args[1]) {
-				writeOf[call] = f
+			a.addStep(key)
+			if a.isBytes(args[1], fr) {
+				a.writeOf[key] = f
 			} else {
-				res.violated = true
+				a.violated = true
 				c.Violation(fn, P.InstrPos(call), "temp file written with something other than the bytes parameter",
-					"the node file receives "+ir.Sym(args[1])+" instead of exactly the bytes parameter: the renamed file is not the complete node")
+					"the node file receives "+descFval(expand(args[1], fr))+" instead of exactly the bytes parameter: the renamed file is not the complete node")
 			}
 		case "io.Copy":
-			stepCalls = append(stepCalls, call)
-			src, _ := ir.Strip(args[1]).(*ssa.Call)
-			if isTemp(args[0]) != nil && src != nil && (staticID(src) == "bytes.NewReader" || staticID(src) == "bytes.NewBuffer") && a.isBytes(src.Call.Args[0]) {
-				writeOf[call] = f
+			a.addStep(key)
+			src := expand(args[1], fr)
+			sc, _ := src.v.(*ssa.Call)
+			_, dstIsTemp := a.tempOf(args[0], fr)
+			if dstIsTemp && sc != nil && (staticID(sc) == "bytes.NewReader" || staticID(sc) == "bytes.NewBuffer") && a.isBytes(sc.Call.Args[0], src.fr) {
+				a.writeOf[key] = f
 			} else {
-				res.undecided = true
+				a.undecided = true
 				c.Undecided(fn, P.InstrPos(call), "io.Copy involving the temp file", "source is not a reader over exactly the bytes parameter")
 			}
 		case "(*os.File).Sync", "(*os.File).Close":
-			stepCalls = append(stepCalls, call)
+			a.addStep(key)
 		case "(*os.File).Name", "(*os.File).Chmod", "(*os.File).Stat", "(*os.File).Fd":
 		default:
-			if h := call.Call.StaticCallee(); a.ownFunc(h) || id == "" {
-				escapes = true
+			if k := fr.child(call); k != nil {
+				a.markRelevant(k) // followed
 			} else if strings.HasPrefix(id, "(*os.File).") {
-				res.undecided = true
+				a.undecided = true
 				c.Undecided(fn, P.InstrPos(call), callName(call)+" on the temp file", "operation on the temp file that the rule does not model")
 			} else {
-				escapes = true
+				a.escapes = true
 			}
 		}
-	}
-	for _, call := range calls {
-		if staticID(call) == "os.Rename" {
-			stepCalls = append(stepCalls, call)
-		}
-	}
-	// helpers that are handed the final path and the bytes
-	for _, call := range calls {
-		h := call.Call.StaticCallee()
-		if !a.ownFunc(h) || h == fn {
-			continue
-		}
-		sub := a.mapRoles(call, h)
-		if sub.bytes == nil || (sub.finalP == nil && (sub.name == nil || (sub.dirP == nil && sub.recv == nil))) {
-			continue
-		}
-		hr := sub.check(active)
-		if hr.violated {
-			res.violated = true
-		}
-		if hr.undecided {
-			res.undecided = true
-		}
-		if hr.violated || hr.undecided || hr.successes > 0 {
-			// findings about the helper are reported at the helper; the call stands for the whole sequence
-			helperOK[call] = true
-			if _, has := errorValue(call); has {
-				stepCalls = append(stepCalls, call)
-			} else {
-				res.violated = true
-				c.Violation(fn, P.InstrPos(call), "helper "+h.Name()+" cannot report failure", "the helper that writes the node returns no error")
-			}
-		}
-	}
+	})
 
 	// ---- (b) every success return completes the sequence ------------------
 	if inPlace {
-		c.Note("%s: the temp+sync+close+rename sequence is not evaluated because the final path is written in place", fname)
+		c.Note("%s: the temp+sync+close+rename sequence is not evaluated because the final path is written in place", ir.FuncName(a.root.fn))
 	} else {
-		type retRes struct {
-			missing  map[int]string // stage reached -> witness path
-			complete bool
-			shortcut bool
-		}
-		per := map[*ssa.Return]*retRes{}
-		var order []*ssa.Return
-		ei := ir.ErrorResultIndex(fn.Signature)
-		enc := func(stage int, f ssa.Value) string {
-			if f == nil {
-				return fmt.Sprintf("%d:", stage)
-			}
-			return fmt.Sprintf("%d:%s", stage, f.Name())
-		}
-		w := &pwalker{fn: fn}
-		w.onInstr = func(st *pstate, ins ssa.Instruction) {
-			call, ok := ins.(*ssa.Call)
-			if !ok {
-				return
-			}
-			stage := 0
-			fileName := ""
-			if st.aux != "" {
-				fmt.Sscanf(st.aux, "%d:%s", &stage, &fileName)
-			}
-			var cur ssa.Value
-			for f := range temps {
-				if f.Name() == fileName {
-					cur = f
-				}
-			}
-			if helperOK[call] {
-				st.aux = enc(5, nil)
-				return
-			}
-			id := staticID(call)
-			args := call.Call.Args
-			switch id {
-			case "os.CreateTemp", "io/ioutil.TempFile":
-				if f := extractOf(call, 0); f != nil {
-					st.aux = enc(1, f)
-				}
-			case "(*os.File).Write", "io.Copy":
-				if f, ok := writeOf[call]; ok && cur != nil && f == cur && stage >= 1 {
-					st.aux = enc(2, cur) // (a write after Sync needs a new Sync)
-				}
-			case "(*os.File).Sync":
-				if cur != nil && isTemp(args[0]) == cur && stage == 2 {
-					st.aux = enc(3, cur)
-				}
-			case "(*os.File).Close":
-				if cur != nil && isTemp(args[0]) == cur && stage == 3 {
-					st.aux = enc(4, cur)
-				}
-			case "os.Rename":
-				if cur != nil && stage == 4 && isTempName(args[0]) == cur && a.isFinal(args[1]) {
-					st.aux = enc(5, cur)
-				}
-			}
-		}
-		w.onReturn = func(st *pstate, r *ssa.Return) {
-			if ei < 0 || ei >= len(r.Results) || nilness(st, r.Results[ei]) == triYes {
-				return
-			}
-			rr := per[r]
-			if rr == nil {
-				rr = &retRes{missing: map[int]string{}}
-				per[r] = rr
-				order = append(order, r)
-			}
-			for e := range statErrs {
-				if st.facts[e] == triNo {
-					rr.shortcut = true
-					return
-				}
-			}
-			stage := 0
-			if st.aux != "" {
-				fmt.Sscanf(st.aux, "%d:", &stage)
-			}
-			if stage == 5 {
-				rr.complete = true
-				return
-			}
-			if _, ok := rr.missing[stage]; !ok {
-				rr.missing[stage] = st.pathString()
-			}
-		}
-		w.run()
-		if w.overflow {
-			res.undecided = true
-			c.Undecided(fn, P.Pos(fn.Pos()), "paths", "path exploration exceeded its bound")
-		}
-		for _, r := range order {
-			rr := per[r]
-			if len(rr.missing) == 0 {
-				if rr.complete {
-					res.successes++
-					c.OK(P.InstrPos(r), "success return of "+fname, "every feasible path to it passes CreateTemp, Write(bytes), Sync, Close, Rename(temp, final) in this order", false)
-				}
-				if rr.shortcut {
-					c.OK(P.InstrPos(r), "success return of "+fname+" (already exists)", "reached only with a nil error from Stat of the final path; sound because node files appear only by rename", true)
-				}
-				continue
-			}
-			for stage := 0; stage < 5; stage++ {
-				path, ok := rr.missing[stage]
-				if !ok {
-					continue
-				}
-				construct := "success return without " + afSteps[stage]
-				msg := fmt.Sprintf("%s can report success on a path (%s) that has performed only %d of the 5 steps temp-create, write, sync, close, rename in order; missing next: %s", fname, path, stage, afSteps[stage])
-				if escapes {
-					res.undecided = true
-					c.Undecided(fn, P.InstrPos(r), construct, msg+" — but the temp file is handed to code the rule does not model", path)
-				} else {
-					res.violated = true
-					c.Violation(fn, P.InstrPos(r), construct, msg, path)
-				}
-			}
-		}
-		if res.successes == 0 && !res.violated && !res.undecided {
-			res.undecided = true
-			c.Undecided(fn, P.Pos(fn.Pos()), "no writing success path", fname+" has no success return that completes the temp+rename sequence")
-		}
+		a.sequence()
 	}
 
-	// ---- each step's error reaches an error return -------------------------
-	seen := map[*ssa.Call]bool{}
-	for _, call := range stepCalls {
-		if seen[call] {
+	// ---- each step's error reaches an error return, through the helpers ----
+	type site struct {
+		fn   *ssa.Function
+		call ssa.CallInstruction
+	}
+	var sites []site
+	seenSite := map[site]bool{}
+	add := func(s site) {
+		if !seenSite[s] {
+			seenSite[s] = true
+			sites = append(sites, s)
+		}
+	}
+	for _, k := range a.steps {
+		add(site{k.fr.fn, k.call})
+		for f := k.fr; f.up != nil; f = f.up {
+			add(site{f.up.fn, f.call})
+		}
+	}
+	for _, s := range sites {
+		call, isCall := s.call.(*ssa.Call)
+		name := callName(s.call)
+		fname := ir.FuncName(s.fn)
+		if !isCall {
+			a.undecided = true
+			c.Undecided(s.fn, P.InstrPos(s.call), "deferred/spawned "+name, "a step of the atomic write runs in a deferred or spawned call: its error cannot be returned")
 			continue
 		}
-		seen[call] = true
 		if _, has := errorValue(call); !has {
+			if h := call.Call.StaticCallee(); h != nil && isOwn(P, h) {
+				a.violated = true
+				c.Violation(s.fn, P.InstrPos(call), "helper "+h.Name()+" cannot report failure", "the helper performs steps of the atomic write but returns no error")
+			}
 			continue
 		}
-		dr := errDropCheck(fn, call)
-		name := callName(call)
+		if !resultHasError(s.fn.Signature) {
+			a.violated = true
+			c.Violation(s.fn, P.InstrPos(call), "error of "+name+" dropped", fname+" performs a step of the atomic write but has no error result")
+			continue
+		}
+		dr := errDropCheck(s.fn, call)
 		switch {
 		case dr.overflow:
-			res.undecided = true
-			c.Undecided(fn, P.InstrPos(call), "error of "+name, "path exploration exceeded its bound")
+			a.undecided = true
+			c.Undecided(s.fn, P.InstrPos(call), "error of "+name, "path exploration exceeded its bound")
 		case !dr.reached || len(dr.bad) == 0:
-			c.OK(P.InstrPos(call), "error of "+name+" in "+fname, "a failure of this step always ends in a non-nil error return", false)
+			a.okOnce(seenOK, P.InstrPos(call), "error of "+name+" in "+fname, "a failure of this step always ends in a non-nil error return", false)
 		case dr.memLoad:
-			res.undecided = true
-			c.Undecided(fn, P.InstrPos(call), "error of "+name, "error returned through a memory cell the rule cannot follow")
+			a.undecided = true
+			c.Undecided(s.fn, P.InstrPos(call), "error of "+name, "error returned through a memory cell the rule cannot follow")
 		default:
-			res.violated = true
+			a.violated = true
 			var wit []string
 			for _, r := range dr.bad {
 				wit = append(wit, fmt.Sprintf("return at %s (%s)", P.InstrPos(r), dr.witness[r]))
 			}
-			c.Violation(fn, P.InstrPos(call), "error of "+name+" dropped",
+			c.Violation(s.fn, P.InstrPos(call), "error of "+name+" dropped",
 				fmt.Sprintf("when %s fails, %s can still report success: a write that reported success is then not complete/durable", name, fname), wit...)
 		}
 	}
-	return res
+}
+
+// automaton state: "<stage>|<temp file id>|<id of the last completed step>"
+func afEnc(stage int, file string, last int) string {
+	return fmt.Sprintf("%d|%s|%d", stage, file, last)
+}
+
+func afDec(aux string) (stage int, file string, last int) {
+	last = -1
+	if aux == "" {
+		return
+	}
+	p := strings.SplitN(aux, "|", 3)
+	if len(p) == 3 {
+		fmt.Sscanf(p[0], "%d", &stage)
+		file = p[1]
+		fmt.Sscanf(p[2], "%d", &last)
+	}
+	return
+}
+
+func fileID(f fval) string { return fmt.Sprintf("%p:%s", f.fr, f.v.Name()) }
+
+// step advances the automaton over one call executed in frame fr.
+func (a *afCtx) step(st *pstate, call *ssa.Call, fr *frame) {
+	key := afCall{call, fr}
+	sid, isStep := a.stepID[key]
+	if !isStep {
+		return
+	}
+	stage, cur, _ := afDec(st.aux)
+	args := call.Call.Args
+	switch staticID(call) {
+	case "os.CreateTemp", "io/ioutil.TempFile":
+		if ex := extractOf(call, 0); ex != nil {
+			st.aux = afEnc(1, fileID(fval{ex, fr}), sid)
+		}
+	case "(*os.File).Write", "io.Copy":
+		if f, ok := a.writeOf[key]; ok && stage >= 1 && fileID(f) == cur {
+			st.aux = afEnc(2, cur, sid) // (a write after Sync needs a new Sync)
+		}
+	case "(*os.File).Sync":
+		if f, ok := a.tempOf(args[0], fr); ok && stage == 2 && fileID(f) == cur {
+			st.aux = afEnc(3, cur, sid)
+		}
+	case "(*os.File).Close":
+		if f, ok := a.tempOf(args[0], fr); ok && stage == 3 && fileID(f) == cur {
+			st.aux = afEnc(4, cur, sid)
+		}
+	case "os.Rename":
+		if f, ok := a.tempNameOf(args[0], fr); ok && stage == 4 && fileID(f) == cur && a.isFinal(args[1], fr) {
+			st.aux = afEnc(5, cur, sid)
+		}
+	}
+}
+
+// inline returns the feasible outcomes (automaton state, nil-ness of the
+// returned error) of running helper frame k from automaton state aux.
+func (a *afCtx) inline(k *frame, aux string) []afOutcome {
+	mk := fmt.Sprintf("%p#%s", k, aux)
+	if o, ok := a.memo[mk]; ok {
+		return o
+	}
+	a.memo[mk] = []afOutcome{} // cut (mutual) recursion
+	var outs []afOutcome
+	seen := map[afOutcome]bool{}
+	ei := ir.ErrorResultIndex(k.fn.Signature)
+	w := a.walker(k)
+	w.initAux = aux
+	w.onReturn = func(st *pstate, r *ssa.Return) {
+		o := afOutcome{aux: st.aux}
+		if ei >= 0 && ei < len(r.Results) {
+			o.err = nilness(st, r.Results[ei])
+		}
+		if !seen[o] {
+			seen[o] = true
+			outs = append(outs, o)
+		}
+	}
+	w.run()
+	if w.overflow {
+		a.overflow = true
+	}
+	a.memo[mk] = outs
+	return outs
+}
+
+func (a *afCtx) walker(fr *frame) *pwalker {
+	w := &pwalker{fn: fr.fn}
+	w.onInstr = func(st *pstate, ins ssa.Instruction) {
+		if call, ok := ins.(*ssa.Call); ok {
+			a.step(st, call, fr)
+		}
+	}
+	w.onCall = func(st *pstate, call *ssa.Call) []*pstate {
+		k := fr.child(call)
+		if k == nil || !a.relevant[k] {
+			return nil
+		}
+		outs := []*pstate{}
+		for _, o := range a.inline(k, st.aux) {
+			s := st.clone()
+			s.aux = o.aux
+			if o.err != triUnknown {
+				s.facts[call] = o.err // for a tuple the walker hands it to the error Extract
+			}
+			outs = append(outs, s)
+		}
+		return outs
+	}
+	return w
+}
+
+func (a *afCtx) sequence() {
+	c, P := a.c, a.c.P
+	fn := a.root.fn
+	fname := ir.FuncName(fn)
+	type retRes struct {
+		missing  map[int]string // stage reached -> witness path
+		last     map[int]int    // stage reached -> id of the last completed step
+		complete bool
+		shortcut bool
+	}
+	per := map[*ssa.Return]*retRes{}
+	var order []*ssa.Return
+	ei := ir.ErrorResultIndex(fn.Signature)
+	w := a.walker(a.root)
+	w.onReturn = func(st *pstate, r *ssa.Return) {
+		if ei < 0 || ei >= len(r.Results) || nilness(st, r.Results[ei]) == triYes {
+			return
+		}
+		rr := per[r]
+		if rr == nil {
+			rr = &retRes{missing: map[int]string{}, last: map[int]int{}}
+			per[r] = rr
+			order = append(order, r)
+		}
+		for e := range a.statErrs {
+			if st.facts[e] == triNo {
+				rr.shortcut = true
+				return
+			}
+		}
+		stage, _, last := afDec(st.aux)
+		if stage == 5 {
+			rr.complete = true
+			return
+		}
+		if _, ok := rr.missing[stage]; !ok {
+			rr.missing[stage] = st.pathString()
+			rr.last[stage] = last
+		}
+	}
+	w.run()
+	if w.overflow || a.overflow {
+		a.undecided = true
+		c.Undecided(fn, P.Pos(fn.Pos()), "paths", "path exploration exceeded its bound")
+	}
+	successes := 0
+	for _, r := range order {
+		rr := per[r]
+		if len(rr.missing) == 0 {
+			if rr.complete {
+				successes++
+				c.OK(P.InstrPos(r), "success return of "+fname, "every feasible path to it passes CreateTemp, Write(bytes), Sync, Close, Rename(temp, final) in this order (helpers inlined)", false)
+			}
+			if rr.shortcut {
+				c.OK(P.InstrPos(r), "success return of "+fname+" (already exists)", "reached only with a nil error from Stat of the final path; sound because node files appear only by rename", true)
+			}
+			continue
+		}
+		for stage := 0; stage < 5; stage++ {
+			path, ok := rr.missing[stage]
+			if !ok {
+				continue
+			}
+			// report where the sequence stops: the function holding the last completed step
+			at, pos := fn, P.InstrPos(r)
+			if id := rr.last[stage]; id >= 0 && id < len(a.steps) {
+				at, pos = a.steps[id].fr.fn, P.InstrPos(a.steps[id].call)
+			}
+			construct := "success return without " + afSteps[stage]
+			msg := fmt.Sprintf("%s can report success (return at %s, %s) having performed only %d of the 5 steps temp-create, write, sync, close, rename in order; missing next: %s", fname, P.InstrPos(r), path, stage, afSteps[stage])
+			if a.escapes {
+				a.undecided = true
+				c.Undecided(at, pos, construct, msg+" — but the temp file is handed to code the rule does not model", path)
+			} else {
+				a.violated = true
+				c.Violation(at, pos, construct, msg, path)
+			}
+		}
+	}
+	if successes == 0 && !a.violated && !a.undecided {
+		a.undecided = true
+		c.Undecided(fn, P.Pos(fn.Pos()), "no writing success path", fname+" has no success return that completes the temp+rename sequence")
+	}
 }
 
 // atomicLoad: clause (c) — Load reads exactly filepath.Join(same field, name).
 func atomicLoad(c *Ctx, b backendImpl, baseField string) {
 	P := c.P
 	fn := b.load
-	recv := newRecvInfo(fn)
-	if recv == nil {
+	root := rootFrame(P, fn)
+	if root.recv == nil {
 		c.Undecided(fn, P.Pos(fn.Pos()), "receiver", "Load has no receiver")
 		return
 	}
-	if recv.fieldWritten(baseField) {
+	if root.recv.fieldWritten(baseField) {
 		c.Undecided(fn, P.Pos(fn.Pos()), "base path modified", "Load assigns the receiver's base path field")
 		return
 	}
-	a := &afRoles{c: c, fn: fn, recv: recv, baseField: baseField, name: fn.Params[2]}
+	a := &afCtx{c: c, root: root, baseField: baseField}
 	n := 0
-	reach := c.Facts.Reach(fn)
-	for _, g := range P.Funcs {
-		if !reach[g] || g == fn {
-			continue
-		}
-		for _, ci := range CallsOf(g) {
-			if strings.HasPrefix(staticID(ci), "os.") {
-				c.Undecided(fn, P.InstrPos(ci), "file access in helper "+g.Name(), "Load opens files in a helper; the rule checks the direct forms only")
-				n++
-			}
-		}
-	}
-	for _, ci := range CallsOf(fn) {
-		call, ok := ci.(*ssa.Call)
-		if !ok {
-			continue
-		}
+	frameCalls(root, func(call *ssa.Call, fr *frame) {
 		id := staticID(call)
 		switch id {
 		case "os.ReadFile", "io/ioutil.ReadFile", "os.Open", "os.OpenFile":
 			n++
-			if a.isFinal(call.Call.Args[0]) {
+			if a.isFinal(call.Call.Args[0], fr) {
 				c.OK(P.InstrPos(call), "path read by "+ir.FuncName(fn), "filepath.Join(receiver."+baseField+", name): the same join Store renames into", false)
 			} else {
-				c.Violation(fn, P.InstrPos(call), "Load reads a path other than Join(base, name)",
-					fmt.Sprintf("Load reads %s, not filepath.Join(receiver.%s, name) — the path Store writes", descValue(call.Call.Args[0]), baseField))
+				c.Violation(fr.fn, P.InstrPos(call), "Load reads a path other than Join(base, name)",
+					fmt.Sprintf("Load reads %s, not filepath.Join(receiver.%s, name) — the path Store writes", descFval(expand(call.Call.Args[0], fr)), baseField))
 			}
 		default:
 			if strings.HasPrefix(id, "os.") && !strings.HasPrefix(id, "os.Is") {
 				n++
-				c.Undecided(fn, P.InstrPos(call), callName(call)+" in Load", "unexpected file-system call in Load")
+				c.Undecided(fr.fn, P.InstrPos(call), callName(call)+" in Load", "unexpected file-system call in Load")
 			}
 		}
-	}
+	})
 	if n == 0 {
-		c.Undecided(fn, P.Pos(fn.Pos()), "Load reads no file", "Load contains no os.ReadFile/os.Open call")
+		c.Undecided(fn, P.Pos(fn.Pos()), "Load reads no file", "Load (and its helpers to depth 2) contains no os.ReadFile/os.Open call")
 	}
 }
